@@ -18,8 +18,9 @@ VARIABLES c, phase,      \* circuit under construction; "gates" | "alloc" | "don
 
 vars == <<c, phase, pos, wireMap, freeRegs, nextReg, insts>>
 
-ShapesQuick == {<<1>>, <<2>>, <<1, 1>>}
-ShapesThorough == {<<1>>, <<2>>, <<1, 1>>, <<3>>, <<1, 2>>, <<2, 1>>}
+\* shapes with zero-bit parties (a single one, two in a row before a non-empty party, two in the middle) are part of both bounds
+ShapesQuick == {<<1>>, <<2>>, <<1, 1>>, <<0, 1>>, <<0, 0, 2>>, <<1, 0, 0, 1>>}
+ShapesThorough == {<<1>>, <<2>>, <<1, 1>>, <<3>>, <<1, 2>>, <<2, 1>>, <<0, 1>>, <<0, 0, 2>>, <<1, 0, 0, 1>>}
 
 Wires(cc) == 0..(NumWires(cc) - 1)
 MAXUSE == 1000000   \* stands for usize::MAX (outputs are never reused)
